@@ -246,7 +246,8 @@ fn gen_stream(r: &mut Rng, o: &GenOpts) -> Object {
 pub fn gen_doc(r: &mut Rng, o: &GenOpts) -> Document {
     let mut doc = Document::with_version("1.7");
     let n = 1 + r.usize(8);
-    let mut cur = 0u32;
+    // one document in ten numbers its objects around 2^24: Algorithm 1 uses the LOW-ORDER three bytes of the object number
+    let mut cur = if r.chance(1, 10) { 0x00ff_fffc } else { 0u32 };
     for _ in 0..n {
         cur += 1 + r.below(3) as u32;
         let id: ObjectId = (cur, if r.chance(1, 8) { r.below(4) as u16 } else { 0 });
@@ -838,16 +839,16 @@ fn primitives(c: &mut Ctx) {
         let klen = match r.below(6) { 0 => 1, 1 => 5, 2 => 16, 3 => 32, 4 => 256, _ => 1 + r.usize(40) };
         let key = r.bytes(klen);
         let dl = r.usize(300); let data = r.bytes(dl);
-        let out = Rc4CryptFilter.encrypt(&key, &data).unwrap();
+        let out = match Rc4CryptFilter.encrypt(&key, &data) { Ok(o) => o, Err(e) => { c.oracle_fail("rc4-error", &format!("RC4 encrypt fails: {:?}", e), json!({"key": hex(&key), "data": hex(&data)})); continue } };
         c.corr(format!("c5_rc4 {} {}", hex_tok(&key), hex_tok(&data)), format!("ok {}", hex_tok(&out)));
         if out != rf::rc4(&key, &data) { c.oracle_fail("rc4-differs", "RC4 differs from the reference", json!({"key": hex(&key), "data": hex(&data)})); }
-        if Rc4CryptFilter.decrypt(&key, &out).unwrap() != data { c.oracle_fail("rc4-not-involutive", "", json!({"key": hex(&key)})); }
+        if Rc4CryptFilter.decrypt(&key, &out).ok().as_ref() != Some(&data) { c.oracle_fail("rc4-not-involutive", "", json!({"key": hex(&key)})); }
         // per-object keys
         let fk_len = *r.pick(&[5usize, 7, 10, 11, 12, 16, 32]);
         let fk = r.bytes(fk_len);
         let id: ObjectId = (match r.below(4) { 0 => r.below(256) as u32, 1 => 0x00ff_ffff, 2 => 0x0100_0000 + r.below(1000) as u32, _ => r.next() as u32 }, if r.chance(1, 2) { 0 } else { r.next() as u16 });
         for (tok, f) in [("I", filter_arc(b'I')), ("R", filter_arc(b'R')), ("A", filter_arc(b'A')), ("B", filter_arc(b'B'))] {
-            let k = f.compute_key(&fk, id).unwrap();
+            let k = match f.compute_key(&fk, id) { Ok(k) => k, Err(e) => { c.oracle_fail("object-key-error", &format!("compute_key fails for a legal object id: {:?}", e), json!({"filter": tok, "key": hex(&fk), "id": format!("{:?}", id)})); continue } };
             c.corr(format!("c5_key {} {} {} {}", tok, hex_tok(&fk), id.0, id.1), format!("ok {}", hex_tok(&k)));
             let expect = match tok { "I" | "B" => fk.clone(), "R" => rf::object_key(&fk, id, false, false), _ => rf::object_key(&fk, id, true, false) };
             if k != expect { c.oracle_fail("object-key-differs", "per-object key differs from Algorithm 1 / 1.A", json!({"filter": tok, "key": hex(&fk), "id": format!("{:?}", id)})); }
